@@ -155,7 +155,7 @@ func (s *verifC1011Suite) view(name string, w *world) snapView {
 		v.DevMode, v.JailMode, v.Classic = snapst.DevMode, snapst.JailMode, snapst.Classic
 		v.IgnoreValid = snapst.IgnoreValidation
 		v.Cohort = snapst.CohortKey
-		if !snapst.LastRefreshTime.IsZero() {
+		if snapst.LastRefreshTime != nil && !snapst.LastRefreshTime.IsZero() {
 			v.LastRefresh = snapst.LastRefreshTime.UTC().Format(time.RFC3339Nano)
 		}
 		if snapst.RefreshInhibitedTime != nil {
@@ -232,7 +232,7 @@ type opSpec struct {
 // random generation reaches only rarely in the quick tier.
 var directedHistories = [][]opSpec{
 	{ // refresh to a kept revision while the lowered retain limit discards older revisions mid-change
-		{Kind: "install", Snap: "some-snap", Rev: 1, Channel: "some-channel", Cohort: "cohort-0"},
+		{Kind: "install", Snap: "some-snap", Rev: 1, Channel: "some-channel"},
 		{Kind: "config", Snap: "some-snap", CfgVal: "v1"},
 		{Kind: "retain", Snap: "some-snap", Rev: 5},
 		{Kind: "refresh-new", Snap: "some-snap", Rev: 2},
@@ -244,12 +244,22 @@ var directedHistories = [][]opSpec{
 		{Kind: "revert-to", Snap: "some-snap", Rev: 5, Enum: true},
 	},
 	{ // refresh changing cohort, channel and flags; then revert
-		{Kind: "install", Snap: "some-snap", Rev: 1, Channel: "some-channel", Cohort: "cohort-0"},
+		{Kind: "install", Snap: "some-snap", Rev: 1, Channel: "some-channel"},
 		{Kind: "config", Snap: "some-snap", CfgVal: "v1"},
 		{Kind: "refresh-new", Snap: "some-snap", Rev: 2, Channel: "latest/edge", Cohort: "cohort-1", DevMode: true, IgnVal: true, Enum: true},
 		{Kind: "config", Snap: "some-snap", CfgVal: "v2"},
 		{Kind: "revert", Snap: "some-snap", Enum: true},
 		{Kind: "refresh-new", Snap: "some-snap", Rev: 3, Cohort: "cohort-2", Enum: true},
+	},
+	{ // removing the current revision of a disabled snap, also when it is first in the sequence
+		{Kind: "install", Snap: "some-snap", Rev: 1},
+		{Kind: "refresh-new", Snap: "some-snap", Rev: 2},
+		{Kind: "refresh-new", Snap: "some-snap", Rev: 3},
+		{Kind: "revert-to", Snap: "some-snap", Rev: 1, Enum: true},
+		{Kind: "disable", Snap: "some-snap"},
+		{Kind: "remove", Snap: "some-snap", Rev: 1},
+		{Kind: "enable", Snap: "some-snap"},
+		{Kind: "refresh-new", Snap: "some-snap", Rev: 4, Enum: true},
 	},
 	{ // configuration must go away with the snap, not before
 		{Kind: "install", Snap: "some-other-snap", Rev: 2, Enum: true},
@@ -400,10 +410,8 @@ func genOp(rnd *rand.Rand, m *model) opSpec {
 		}
 		chans := []string{"", "some-channel", "latest/edge", "channel-for-7/stable"}
 		if !m.installed[n] {
+			// (a revision and a cohort key cannot be requested together)
 			op := opSpec{Kind: "install", Snap: n, Rev: 1 + rnd.Intn(6), Channel: chans[rnd.Intn(3)], DevMode: rnd.Intn(6) == 0}
-			if rnd.Intn(2) == 0 {
-				op.Cohort = "cohort-" + fmt.Sprint(rnd.Intn(3))
-			}
 			return op
 		}
 		seq, cur := m.seq[n], m.cur[n]
@@ -456,6 +464,9 @@ func genOp(rnd *rand.Rand, m *model) opSpec {
 				return opSpec{Kind: "retain", Snap: n, Rev: 2 + rnd.Intn(4)}
 			}
 			return opSpec{Kind: "config", Snap: n, CfgVal: fmt.Sprintf("v%d", rnd.Intn(100))}
+		case !m.active[n] && len(seq) > 1 && rnd.Intn(2) == 0:
+			// the current revision of a disabled snap can be removed on its own
+			return opSpec{Kind: "remove", Snap: n, Rev: cur}
 		case !m.active[n]:
 			return opSpec{Kind: "enable", Snap: n}
 		}
@@ -576,10 +587,31 @@ func (s *verifC1011Suite) runHistory(c *C, chk *kit.Check, prop string, hi int, 
 			for _, n := range []string{"some-snap", "some-other-snap"} {
 				before[n] = s.view(n, w)
 			}
+			if op.Kind == "refresh-kept" || op.Kind == "revert-to" {
+				// an earlier faulted attempt may have irreversibly discarded the
+				// target: the request is then no longer the same operation
+				kept := false
+				for _, r := range before[op.Snap].Sequence {
+					if r == op.Rev {
+						kept = true
+					}
+				}
+				if !kept || before[op.Snap].Current == op.Rev {
+					chk.Count("target_discarded_by_earlier_fault", 1)
+					return true, true, 0
+				}
+			}
 			a, err := s.run(op, splice, bfault)
 			if err != nil {
 				// the request is not (or no longer) acceptable: nothing to judge
 				chk.Count("requests_rejected", 1)
+				chk.Count("rejected_"+op.Kind, 1)
+				if fixed != nil {
+					chk.Inconclusive(fmt.Sprintf("directed history %d: request %d (%s) was rejected: %v", hi, oi, op.Kind, err))
+				}
+				if os.Getenv("VERIF_DEBUG") != "" {
+					fmt.Printf("DEBUG hist=%d op=%d %+v rejected: %v\n", hi, oi, op, err)
+				}
 				return true, true, 0
 			}
 			if a.skipped {
@@ -674,6 +706,7 @@ func (s *verifC1011Suite) runHistory(c *C, chk *kit.Check, prop string, hi int, 
 
 		if enumerate {
 			chk.Count("operations_fault_enumerated", 1)
+			chk.Count("enumerated_"+op.Kind, 1)
 			// F1: error-trigger after task k, for every k
 			stop := false
 			ntasks := 1
